@@ -8,10 +8,11 @@ def collect(res, trace, bad, site_of):
     for ln, tags in bad.items():
         r = recs[ln]
         for t in tags:
-            res.violation(t, site_of(t), {k: r.get(k) for k in ("types", "ts", "vals", "v", "ann", "enc", "dec_t", "subs", "sub_direct", "direct", "steps") if k in r} |
+            res.violation(t.split("@")[0], site_of(t), {k: r.get(k) for k in ("types", "ts", "vals", "v", "ann", "enc", "dec_t", "subs", "sub_direct", "direct", "steps") if k in r} |
                           {"env": {k: v for k, v in (r.get("env") or {}).items() if not k.startswith("p_")}, "blob_hex": bytes(r["blob"]).hex() if isinstance(r.get("blob"), list) else None}, "")
 
 def site(t):
+    if "@" in t: return "panic@" + t.split("@")[-1]
     if t.startswith("annotate"): return "IDLValue::annotate_type(from_parser=false)"
     if t.startswith("encode"): return "IDLArgs::to_bytes_with_types"
     return "untyped round trip"
@@ -35,7 +36,7 @@ def run(tier, seed):
     collect(res, trace, bad, site)
     res.rule = ("TLC: every (type tree of depth<=2, inhabitant) (MC_Decode/enc); harness: %d seeded random recursive environments with inhabitants, half of them mutated into near-miss values (wrong number width, "
                 "missing/surplus field, unknown tag, text/blob confusion, extra nesting, reference kind); each through annotate_type(false), to_bytes_with_types, from_bytes_with_types and from_bytes; the referee "
-                "decides typedness with Values.tla. non-trivial = value whose projection is longer than 40 characters; distinct by (values, types, environment)" % nrand)
+                "decides typedness with Values.tla; the same lists with one value too many / too few must be answered without a panic. non-trivial = value whose projection is longer than 40 characters; distinct by (values, types, environment)" % nrand)
     res.assumptions = ["values that differ only in the Nat/Int constructor of a number are not distinguished by the abstract domain"]
     return res.finish()
 
